@@ -453,3 +453,50 @@ def r_optscan(prog, R, rid):
                    "SERVFAIL in the header while the OPT record still carries the high bits) and the parsed message reports a different RCODE" % (nm, why))
         else:
             r.ok(k, f.loc(f.ln))
+
+
+def r_qdcount(prog, R, rid):
+    r = R.rule(rid, "the writer refuses a question count the parser refuses: the parser takes exactly one question (0 and >1 are ARES_EBADRESP), so a record with another count must not "
+               "serialise successfully into a message that cannot be read back", floor=1,
+               analysis="sibling agreement: rejecting guards on QDCOUNT in ares_dns_parse_buf vs a failing guard on ares_dns_record_query_cnt on the write path")
+    pf = prog.func("ares_dns_parse_buf")
+    pguards = []
+    for b in pf.blocks.values():
+        br = pf.branch(b)
+        if not br:
+            continue
+        for c, p_ in atoms(br[0], True):
+            op, l, rr = norm_cmp(c, p_)
+            if is_var(strip(l), "qdcount") and rr is not None and const_val(rr) is not None:
+                pguards.append("%s %s" % (op, const_val(rr)))
+    if not r.require(len(pguards) >= 1, "ares_dns_parse_buf: no guard on qdcount found"):
+        return
+    r.info["parser_guards_on_qdcount"] = sorted(pguards)
+    root = prog.func("ares_dns_write_buf_int") if "ares_dns_write_buf_int" in prog.by_name else prog.func("ares_dns_write_buf")
+    reach, work = {}, [root]
+    while work:
+        f = work.pop()
+        if f.key in reach:
+            continue
+        reach[f.key] = f
+        for b, i, c in f.calls():
+            t = prog.resolve(f, c)
+            if t is not None and t.file.startswith("src/lib/record/ares_dns_write"):
+                work.append(t)
+    found = None
+    for f in reach.values():
+        for g in call_result_branches(f, "ares_dns_record_query_cnt"):
+            for pol, tgt in ((True, g["true"]), (False, g["false"])):
+                if tgt is None:
+                    continue
+                blk = f.blocks[tgt]
+                if any((el["k"] == "ret" and name_of_const(el.get("e")) not in (None, "ARES_SUCCESS")) or
+                       (el["k"] == "asg" and is_var(strip(el["e"]["l"]), "status") and name_of_const(el["e"].get("r")) not in (None, "ARES_SUCCESS")) for el in blk.els):
+                    found = (f, g)
+    k = "writer fails for a question count other than one"
+    if found:
+        r.ok(k, found[0].loc(found[1]["call"]["ln"]))
+    else:
+        hf = prog.func("ares_dns_write_header")
+        r.viol(k, hf.name, hf.loc(hf.ln), "the parser rejects QDCOUNT %s, the write path (%d functions from %s) never tests ares_dns_record_query_cnt: a record with no question, or with two, is written "
+               "successfully and the result fails to parse (ARES_EBADRESP)" % (" and ".join(sorted(set(pguards))), len(reach), root.name))
